@@ -10,6 +10,7 @@ import (
 	"encoding/json"
 	"os"
 	"runtime"
+	"runtime/pprof"
 	"sort"
 	"strconv"
 	"sync"
@@ -100,6 +101,7 @@ type runner struct {
 
 	mu      sync.Mutex
 	seen    map[string]bool // canonical real states already explored off-model
+	pool    chan *world
 	nTraces int
 	nOff    int
 	capHit  bool
@@ -142,7 +144,8 @@ func (w *world) restore(s snap) {
 
 // run replays path on a fresh world, returning the world and the recorded steps (real results and observations).
 func (r *runner) run(area string, path []*act) (*world, interface{}, []step) {
-	w := newWorld(r.n, r.nv, r.mode)
+	w := r.getWorld()
+	defer r.putWorld(w)
 	init := w.project(area, r.tab)
 	steps := make([]step, 0, len(path))
 	for _, a := range path {
@@ -150,6 +153,27 @@ func (r *runner) run(area string, path []*act) (*world, interface{}, []step) {
 		steps = append(steps, step{A: a, R: res, T: w.project(area, r.tab)})
 	}
 	return w, init, steps
+}
+
+// worlds are recycled (creating the in-memory LevelDB costs several ms): a recycled world is restored to the
+// seeded storage before use.
+func (r *runner) getWorld() *world {
+	select {
+	case w := <-r.pool:
+		w.restore(w.seed)
+		return w
+	default:
+	}
+	w := newWorld(r.n, r.nv, r.mode)
+	w.seed = w.snapshot()
+	return w
+}
+
+func (r *runner) putWorld(w *world) {
+	select {
+	case r.pool <- w:
+	default:
+	}
 }
 
 func areaOf(raw json.RawMessage) string {
@@ -190,8 +214,8 @@ func (r *runner) explore(area string, path []*act) {
 				prev = steps[len(steps)-2].T
 			}
 			cs := canonStr(last.T)
-			if last.R == "err" && cs == canonStr(prev) {
-				continue // refused and nothing changed: nothing to judge
+			if (last.R == "err" || last.R == "ok") && cs == canonStr(prev) {
+				continue // nothing applied and nothing changed: nothing to judge
 			}
 			r.emitTrace(trace{Kind: "off", Init: init, Steps: steps})
 			r.mu.Lock()
@@ -218,6 +242,11 @@ func workers() int {
 
 func main() {
 	defer vio.Flush()
+	if pf := os.Getenv("VDGOV_PROF"); pf != "" {
+		f, _ := os.Create(pf)
+		pprof.StartCPUProfile(f)
+		defer pprof.StopCPUProfile()
+	}
 	if len(os.Args) < 4 || os.Args[1] != "edges" {
 		vio.Fatal("usage: vd-gov edges <mode C32|C33|C34|C35> <NV> [depth] [cap]   (edges on stdin)")
 	}
@@ -233,7 +262,7 @@ func main() {
 	lines := vio.ReadLines()
 	edges := make([]edge, len(lines))
 	r := &runner{n: newNames(vio.Seed()), nv: nv, mode: mode, tab: labelTab{}, alpha: map[string][]*act{},
-		depth: depth, capT: capT, seen: map[string]bool{}, distinct: map[string]bool{}}
+		depth: depth, capT: capT, pool: make(chan *world, 64), seen: map[string]bool{}, distinct: map[string]bool{}}
 	seenAct := map[string]bool{}
 	for i, l := range lines {
 		if err := json.Unmarshal(l, &edges[i]); err != nil {
@@ -272,7 +301,8 @@ func main() {
 		for j := range e0.H {
 			hist = append(hist, &e0.H[j])
 		}
-		w := newWorld(r.n, r.nv, r.mode)
+		w := r.getWorld()
+		defer r.putWorld(w)
 		for _, a := range hist {
 			w.exec(a)
 		}
